@@ -277,12 +277,20 @@ public:
     /**
      * @return If this cache is currenty empty.
      */
-    auto empty() const -> bool { return m_used_size == 0; }
+    auto empty() const -> bool
+    {
+        std::lock_guard guard{m_lock};
+        return (m_used_size == 0);
+    }
 
     /**
      * @return The number of elements inside the cache.
      */
-    auto size() const -> size_t { return m_used_size; }
+    auto size() const -> size_t
+    {
+        std::lock_guard guard{m_lock};
+        return m_used_size;
+    }
 
     /**
      * @return The maximum capacity of this cache.
@@ -479,7 +487,7 @@ private:
     }
 
     /// Cache lock for all mutations.
-    mutex<thread_safe_type> m_lock;
+    mutable mutex<thread_safe_type> m_lock;
 
     /// The uniform TTL for every key value pair inserted into the cache.
     std::chrono::milliseconds m_ttl;
